@@ -352,6 +352,14 @@ SetResult(res, a, idx, len) ==
       n == IF idx + 1 > Len(old) THEN idx + 1 ELSE Len(old) IN
   [res EXCEPT ![a] = [i \in 1..n |-> IF i = idx + 1 THEN len ELSE IF i <= Len(old) THEN old[i] ELSE 0]]
 
+(* ---- formatScanResult(slave, ..): nothing for an address without an entry; else the address (two hex digits) and all its texts *)
+RECURSIVE SumSeq(_)
+SumSeq(sq) == IF sq = <<>> THEN 0 ELSE Head(sq) + SumSeq(Tail(sq))
+SFormatScanResult(hasEntry, lens) == IF hasEntry THEN [have |-> 1, len |-> 2 + SumSeq(lens)] ELSE [have |-> 0, len |-> 0]
+
+(* ---- GrabbedMessage::setLastData: the entry of the telegram's key keeps the last data and counts one more *)
+SGrab(entry, master, slave) == [cnt |-> entry.cnt + 1, m |-> master, s |-> slave]
+
 (* ---- notifyProtocolMessage for a telegram ebusd sent itself (md_send): identification bookkeeping + grab table *)
 SMsg(s, master, slave) ==
   LET a == master[2]
